@@ -43,6 +43,16 @@ Theorem C11_class_equiv : forall fuel c globals calls,
   run_class fuel c globals calls = run_explicit fuel c globals calls.
 Proof. exact class_equiv. Qed.
 
+(* the class-form semantics used above is ordinary lexical scoping: deciding "local or member" by the static list
+   of names in scope gives, for every program, the same result as deciding it by what the environment binds *)
+Theorem C11_static_scope_is_lexical : forall fuel c globals calls,
+  run_class fuel c globals calls = run_class_dyn fuel c globals calls.
+Proof. exact class_static_is_lexical. Qed.
+
+(* the explicit form needs no class machinery any more: desugaring it again changes nothing *)
+Theorem C11_desugar_idempotent : forall c, desugar_class (desugar_class c) = desugar_class c.
+Proof. exact desugar_class_idem. Qed.
+
 (* ---- non-vacuity ---- *)
 Definition w : str := [119]%N. Definition h : str := [104]%N. Definition n : str := [110]%N.
 Definition a : str := [97]%N. Definition gv : str := [103;118]%N.
@@ -92,3 +102,5 @@ Print Assumptions C11_class_fields_nodup.
 Print Assumptions C11_class_methods_exact.
 Print Assumptions C11_class_plain_is_method.
 Print Assumptions C11_class_equiv.
+Print Assumptions C11_static_scope_is_lexical.
+Print Assumptions C11_desugar_idempotent.
